@@ -134,6 +134,7 @@ typedef struct {
     int      pmtu;           /* DTLS: 0 default */
     int      bogus_psk;      /* TLS 1.3 certificate modes: the client additionally offers an external PSK the server does not know */
     int      bad_server_cert;/* client CA list does not contain server's issuer */
+    int      bad_server_sig; /* the server SENDS its certificate with one signature bit flipped (the issuer is trusted by the client) */
     int      no_cert_cb;     /* register no cert callback (default: strict callback returning alert) */
     int      ems_off;        /* disable extended master secret on client */
     int      hrr;            /* TLS 1.3: the client offers {P-256, P-384} with a key share for P-256 only, the server supports P-384 only: HelloRetryRequest */
